@@ -276,7 +276,26 @@ macro_rules! aops {
             #[allow(unused_mut)]
             fn snapshot(w: &mut VW, path: u8) -> Vec<Row> {
                 let mut out: Vec<Row> = Vec::new();
-                match path % 14 {
+                match path % 15 {
+                    // closures that leave by an early `return;` ("skip this entity"): the first pass skips
+                    // every second visit, the second pass (runtime-borrowing macro) the others
+                    14 => {
+                        let mut k = 0usize;
+                        ecs_iter!(w, |e: &Entity<$A>, $($c: &$T),*| {
+                            k += 1;
+                            if k % 2 == 0 { return; }
+                            out.push((tok(*e), vec![$(rd($c)),*]));
+                        });
+                        let mut k2 = 0usize;
+                        ecs_iter_borrow!(w, |e: &Entity<$A>, $($c: &$T),*| {
+                            k2 += 1;
+                            if k2 % 2 == 1 { return; }
+                            out.push((tok(*e), vec![$(rd($c)),*]));
+                        });
+                        if k != k2 || k != w.$f.len() {
+                            reg::with(|r| r.anomalies.push(format!("iter_count:{}:{}:{}", stringify!($A), k, k2)));
+                        }
+                    }
                     // positional adaptors (nth / skip / step_by / last / count / size_hint), on iter() and
                     // iter_mut(): even positions from one pass, odd positions from another
                     13 => {
